@@ -26,7 +26,7 @@ ID = "C16"
 LEVEL = "exploration"
 VERSION = 1
 RULE = (
-    "one case = corpus project x seeded history of 0..4 operations (parset copy, add/remove/rename population everywhere, add/remove transfer (code names with and without the separator "_from_"), add/remove program, remove/re-add parameter or compartment of the program set, "
+    "one case = corpus project x seeded history of 0..4 operations (parset copy, add/remove/rename population everywhere, add/remove transfer (code names with and without the separator '_from_'), add/remove program, remove/re-add parameter or compartment of the program set, "
     "databook / program book value edits through TimeSeries insert/remove, zero-uncertainty sampling, reconciliation under the virtual clock, loading a calibration) followed by every round trip; "
     "distinct = distinct (project, history, round-trip media) tuples; non-trivial = history length >= 1 or a lossy calibration file was loaded, and at least one paired simulation was compared"
 )
